@@ -1,7 +1,10 @@
+pub mod compile;
 pub mod emit_run;
 pub mod front;
 pub mod stress;
+pub mod text;
 pub mod lalr_diff;
+pub mod oset;
 
 pub fn selftest() -> i32 {
     0
